@@ -3958,7 +3958,17 @@ impl Database {
         };
 
         let rows = if let Some((schema_name, table_name)) = toast_table_info {
-            self.detoast_rows(file_manager, &schema_name, &table_name, rows)?
+            let toast_column_types: Vec<DataType> = catalog
+                .resolve_table_in_schema(Some(&schema_name), &table_name)
+                .map(|t| t.columns().iter().map(|c| c.data_type()).collect())
+                .unwrap_or_default();
+            self.detoast_rows(
+                file_manager,
+                &schema_name,
+                &table_name,
+                &toast_column_types,
+                rows,
+            )?
         } else {
             rows
         };
